@@ -129,7 +129,8 @@ def inject_listed(rng, r: dict, cls: str) -> list[str] | None:
     raise AssertionError(cls)
 
 
-def mutate_generic(rng, words: list[str], kind: str) -> list[str]:
+def mutate_generic(rng, words: list[str], kind: str, vocabulary: list[str] | None = None) -> list[str]:
+    WORDS = (vocabulary or []) + globals()["WORDS"]  # noqa: N806 - the engine's own identifiers first
     n = len(words)
     if n == 0:
         return [rng.choice(WORDS)]
@@ -330,6 +331,7 @@ class C16(Sim):
             return out
         if sp.get("flags", {}).get("example"):
             st.hit("probes.shipped_example_engine")
+        vocab = sorted({v["name"] for v in sp["inputs"] + sp["outputs"]} | {t["name"] for v in sp["inputs"] + sp["outputs"] for t in v["terms"]})
         store = TornStore()
         # harness view of every rule: original text, text currently in force, whether it should be loaded
         cur_text = {(bi, ri): S.rule_text(r) for bi, b in enumerate(sp["blocks"]) for ri, r in enumerate(b["rules"])}
@@ -378,7 +380,7 @@ class C16(Sim):
                     else:
                         words = orig_text[(bi, ri)].split()
                         for _ in range(mut.get("times", 1)):
-                            words = mutate_generic(mr, words, mut["generic"])
+                            words = mutate_generic(mr, words, mut["generic"], vocab)
                         mclass = "G:" + mut["generic"]
                         st.hit("faults.rule_generic_" + mut["generic"])
                     text = " ".join(words)
@@ -460,7 +462,7 @@ class C16(Sim):
                 else:
                     words = orig_text[(bi, ri)].split()
                     for _ in range(mut.get("times", 1)):
-                        words = mutate_generic(mr, words, mut["generic"])
+                        words = mutate_generic(mr, words, mut["generic"], vocab)
                     st.hit("faults.fresh_generic_" + mut["generic"])
                 text = " ".join(words)
                 others = all_rule_snaps()
